@@ -452,7 +452,26 @@ func VerifC03HWWriters() {
 	vAssert(err == nil, "NewReader(committed) succeeds")
 	done := make(chan struct{}, 4)
 	delivered := make(chan int64, 16)
+	// a second committed reader, started beyond the high watermark (which is
+	// -1 here): by design it waits for the next committed message, offset 0;
+	// both parked readers must be woken
+	r2, err := l.NewReader(max, false)
+	vAssert(err == nil, "NewReader(committed) beyond the high watermark succeeds")
+	delivered2 := make(chan int64, 4)
+	max = vConcretize64(max)
 	vSchedExplore(vParam("preemptions", 1))
+	go func() {
+		buf := make([]byte, 28)
+		ctx, cancel := context.WithTimeout(context.Background(), time.Hour)
+		defer cancel()
+		_, off, _, _, err := r2.ReadMessage(ctx, buf)
+		if err != nil {
+			delivered2 <- -100
+			return
+		}
+		vAssert(off <= l.HighWatermark(), "no message above the high watermark is delivered")
+		delivered2 <- off
+	}()
 	go func() {
 		l.SetHighWatermark(a)
 		vAssert(l.HighWatermark() >= a, "once SetHighWatermark(x) returned the high watermark is at least x")
@@ -494,7 +513,8 @@ func VerifC03HWWriters() {
 	}
 	vSchedExplore(0)
 	vAssert(l.HighWatermark() == max, "after concurrent advances the high watermark is the largest value set")
-	max = vConcretize64(max)
+	got2 := <-delivered2
+	vAssert(got2 == 0, "a second reader parked beyond the high watermark is woken too and gets the next committed message")
 	for i := int64(0); i <= max; i++ {
 		off := <-delivered
 		vAssert(off == i, "every committed message is delivered once, in order (no lost wake-up)")
